@@ -275,45 +275,73 @@ fn expected_line(slot: &str, tagged: bool, rt: &Rt, storage_tagged: bool, defaul
 
 // --- ContractWrapper ------------------------------------------------------------------------------
 
+/// What every wrapped entry point returns: attributes, an event, data, sub-messages with id / payload / gas limit /
+/// reply_on and plain messages of several kinds. The wrapper must hand it on as it is (lifting `Empty` messages into
+/// the chain's message type — `Empty` again here — changes nothing).
+fn rich(name: &str) -> Response {
+    use cosmwasm_std::{coin, ReplyOn, SubMsg};
+    let mut sub = SubMsg::reply_always(BankMsg::Send { to_address: "to".into(), amount: vec![coin(3, "ua"), coin(0, "ub")] }, 7).with_gas_limit(12_345).with_payload(Binary::from(b"payload".to_vec()));
+    sub.reply_on = ReplyOn::Always;
+    Response::new()
+        .add_attribute("entry", name)
+        .add_attribute("second", "")
+        .add_event(cosmwasm_std::Event::new("ev").add_attribute("k", "v"))
+        .set_data(format!("data-{}", name).into_bytes())
+        .add_submessage(sub)
+        .add_submessage(SubMsg::reply_on_error(WasmMsg::Execute { contract_addr: "c".into(), msg: Binary::from(b"{}".to_vec()), funds: vec![coin(1, "ua")] }, u64::MAX).with_gas_limit(1))
+        .add_submessage(SubMsg::reply_on_success(StakingMsg::Delegate { validator: "v".into(), amount: coin(5, "ua") }, 0))
+        .add_message(DistributionMsg::SetWithdrawAddress { address: "w".into() })
+        .add_message(GovMsg::Vote { proposal_id: 3, option: VoteOption::No })
+        .add_message(CosmosMsg::Any(AnyMsg { type_url: "/t".into(), value: Binary::from(vec![1u8, 2]) }))
+}
+
 fn w_execute(_d: DepsMut, _e: Env, _i: MessageInfo, _m: Empty) -> StdResult<Response> {
-    Ok(Response::new().add_attribute("entry", "execute"))
+    Ok(rich("execute"))
 }
 fn w_instantiate(_d: DepsMut, _e: Env, _i: MessageInfo, _m: Empty) -> StdResult<Response> {
-    Ok(Response::new().add_attribute("entry", "instantiate"))
+    Ok(rich("instantiate"))
 }
 fn w_query(_d: Deps, _e: Env, _m: Empty) -> StdResult<Binary> {
     Ok(Binary::from(b"query".to_vec()))
 }
 fn w_sudo(_d: DepsMut, _e: Env, _m: Empty) -> StdResult<Response> {
-    Ok(Response::new().add_attribute("entry", "sudo"))
+    Ok(rich("sudo"))
 }
 fn w_sudo_e(_d: DepsMut, _e: Env, _m: Empty) -> StdResult<Response> {
-    Ok(Response::new().add_attribute("entry", "sudo_empty"))
+    Ok(rich("sudo_empty"))
 }
 fn w_reply(_d: DepsMut, _e: Env, _m: Reply) -> StdResult<Response> {
-    Ok(Response::new().add_attribute("entry", "reply"))
+    Ok(rich("reply"))
 }
 fn w_reply_e(_d: DepsMut, _e: Env, _m: Reply) -> StdResult<Response> {
-    Ok(Response::new().add_attribute("entry", "reply_empty"))
+    Ok(rich("reply_empty"))
 }
 fn w_migrate(_d: DepsMut, _e: Env, _m: Empty) -> Result<Response, StdError> {
-    Ok(Response::new().add_attribute("entry", "migrate"))
+    Ok(rich("migrate"))
 }
 fn w_migrate_e(_d: DepsMut, _e: Env, _m: Empty) -> Result<Response, StdError> {
-    Ok(Response::new().add_attribute("entry", "migrate_empty"))
+    Ok(rich("migrate_empty"))
 }
 
 pub fn probe_wrapper(c: Box<dyn Contract<Empty, Empty>>, _rt: &Rt) -> Vec<String> {
     let mut deps = mock_dependencies();
     let env = mock_env();
     let info = MessageInfo { sender: Addr::unchecked("s"), funds: vec![] };
+    let altered: std::cell::RefCell<Vec<String>> = Default::default();
     let attr = |r: AnyResult<Response>| match r {
-        Ok(r) => r.attributes.first().map(|a| a.value.clone()).unwrap_or_else(|| "ok".into()),
+        Ok(r) => {
+            let name = r.attributes.first().map(|a| a.value.clone()).unwrap_or_else(|| "ok".into());
+            // the response the supplied function returned must arrive as it is
+            if format!("{:?}", r) != format!("{:?}", rich(&name)) {
+                altered.borrow_mut().push(format!("{} returns {:?} instead of {:?}", name, r, rich(&name)));
+            }
+            name
+        }
         Err(_) => "absent".into(),
     };
     #[allow(deprecated)]
     let reply = Reply { id: 1, payload: Binary::default(), gas_used: 0, result: SubMsgResult::Ok(SubMsgResponse { events: vec![], data: None, msg_responses: vec![] }) };
-    vec![
+    let mut out = vec![
         format!("execute: {}", attr(c.execute(deps.as_mut(), env.clone(), info.clone(), b"{}".to_vec()))),
         format!("instantiate: {}", attr(c.instantiate(deps.as_mut(), env.clone(), info, b"{}".to_vec()))),
         format!("query: {}", c.query(deps.as_ref(), env.clone(), b"{}".to_vec()).map(|b| String::from_utf8_lossy(&b).to_string()).unwrap_or_else(|_| "err".into())),
@@ -321,7 +349,10 @@ pub fn probe_wrapper(c: Box<dyn Contract<Empty, Empty>>, _rt: &Rt) -> Vec<String
         format!("reply: {}", attr(c.reply(deps.as_mut(), env.clone(), reply))),
         format!("migrate: {}", attr(c.migrate(deps.as_mut(), env, b"{}".to_vec()))),
         format!("checksum: {}", c.checksum().map(|c| c.to_hex()).unwrap_or_else(|| "none".into())),
-    ]
+    ];
+    let altered = altered.into_inner();
+    out.push(if altered.is_empty() { "responses: intact".to_string() } else { format!("responses: {}", altered.join("; ")) });
+    out
 }
 
 include!("c20_perms.rs");
@@ -432,13 +463,14 @@ fn main() {
                 format!("reply: {}", has("reply").unwrap_or("absent")),
                 format!("migrate: {}", has("migrate").unwrap_or("absent")),
                 format!("checksum: {}", match last_checksum { Some("checksum") => rt.checksum().to_hex(), Some(_) => rt.decoy_checksum().to_hex(), None => "none".into() }),
+                "responses: intact".to_string(),
             ];
             for (g, w) in t.iter().zip(want.iter()) {
                 rep.bump("c20/wrapper_slots_checked");
                 if g != w {
                     let slot = w.split(':').next().unwrap_or("");
                     let later: Vec<&&str> = steps.iter().skip_while(|s| !s.starts_with(slot)).skip(1).collect();
-                    let sig = if slot == "checksum" { format!("wrapper-checksum-lost-by-later-with-step") } else { format!("wrapper-{}-entry-point-lost", slot) };
+                    let sig = if slot == "checksum" { format!("wrapper-checksum-lost-by-later-with-step") } else if slot == "responses" { "wrapper-alters-the-response-of-an-entry-point".to_string() } else { format!("wrapper-{}-entry-point-lost", slot) };
                     rep.violate("C20", sig, format!("chain {:?}: [{}], expected [{}] (steps after it: {:?})", steps, g, w, later), json!({"chain": steps, "probe": t, "seed": s}));
                 }
             }
